@@ -118,9 +118,43 @@ class C32(SchedProp):
     id = 'C32'
     props_modules = ['CylcModel.Props.C32']
     theorems = [
-        'CylcModel.C32.placeholder',
+        'CylcModel.C32.expire_guard_partial',
+        'CylcModel.C32.expire_guard_live',
+        'CylcModel.C32.expire_guard_counterexample',
+        'CylcModel.C32.expire_guard_code',
+        'CylcModel.C32.expired_inert',
+        'CylcModel.C32.expired_never_submits',
+        'CylcModel.C32.expiry_unqueues',
+        'CylcModel.C32.expire_children_only',
+        'CylcModel.C32.expire_children_logged',
+        'CylcModel.C32.expire_children_satisfied',
     ]
-    statement_note = 'TODO'
+    statement_note = (
+        'proof over the Sched3Exp model (Sched2 + virtual clock + clock_expire_tasks / clock_expire / process_message(expired) '
+        '/ state_reset(expired) / spawning on the expired output + cylc trigger of one pooled task), for every instance '
+        'graph and every op list; every transition into `expired` is logged by the one model function that performs it '
+        '(the log of each op is compared with the expiry events of the real scheduler). expire_guard: every logged expiry '
+        'was a waiting, not manually triggered proxy with an expiry time that the clock had reached - proved for all '
+        'histories without a job message `expired` (expire_guard_partial, inductive invariant over all primitives) and for '
+        'all histories once such messages are ignored (expire_guard_live); PARTIAL on that point: the unrestricted statement '
+        '(expire_guard_full) is false for the code as found - a job message with the text `expired` expires a running task '
+        'before its time (expire_guard_counterexample, a concrete run; the real scheduler does the same: finding '
+        'job-message-expired; the behaviour flag is probed from the live code on every run, expire_guard_code is the '
+        'statement for whichever code is under test). expired_never_submits: in every state of every run an expired proxy '
+        'is not queued, not manual, not waiting on job preparation, not in tasks_to_trigger_now (expired_inert), and every '
+        'job launch of every run is made by a main loop for a proxy that was pooled and not expired when that loop handed it '
+        'to job submission, i.e. after the clock expiry of the same loop (expired_never_submits; same hypothesis on job '
+        'messages). NOT proved: that an instance never launches *after* an earlier expiry when stale job messages move it '
+        'out of the expired state again (expired -> running -> failed -> retry): the model and the real scheduler then '
+        're-expire it before the next release because the clock does not go back - checked by the judge on every trace and '
+        'by a hand-written history, not a theorem. expire_children: after the expired output of a pooled proxy is '
+        'processed every pooled key was pooled before, is a child of that output, or is the next parentless instance of a '
+        'proxy removed meanwhile by a suicide trigger (expire_children_only, all states); along every run, with no '
+        'hypothesis on the history, every logged expiry of a pooled proxy reports as added only children of its expired '
+        'output or the next parentless instance of a task it reports as removed (expire_children_logged - the rule the '
+        'judge applies to the real events); each child reached by the spawn_on_output step has its prerequisite atoms on '
+        'the output satisfied (expire_children_satisfied, one step, all states); that no child of the output is skipped, '
+        'and that a satisfied child stays satisfied until the event ends, is checked by the judge on the traces, not proved')
     technique = ('inductive invariants over op lists of a Lean scheduler model (Sched3Exp = Sched2 + clock expiry, virtual '
                  'clock, single-task trigger) + trace correspondence with the real Scheduler on datetime-cycling workflows '
                  'under a virtual clock + a monitor judge on the observed traces')
